@@ -647,6 +647,10 @@ func checkC05Server(p *Prog, r *Report, rSrc, rPins, rPort *Rule) {
 			}
 			ns++
 			rs := valueRoots(c.Args[1], nil)
+			if 1 == len(rs) && "param" == rs[0].Kind {
+				/* Handed down by the one caller of a private function. */
+				rs = valueRoots(p.resolveUp(rs[0].V), nil)
+			}
 			if 1 == len(rs) && "field" == rs[0].Kind && rs[0].Field == lF {
 				rSrc.OK(fnName(fn)+":Serve", posOf(i), "serves on s.l")
 			} else {
